@@ -5,6 +5,7 @@ name=$1; shift
 cd /verif
 mkdir -p /tmp/ev_backup && cp evidence/*.json /tmp/ev_backup/ 2>/dev/null
 git -C /repo apply /verif/seeded/$name/patch.diff || { echo "patch does not apply"; exit 2; }
+trap 'git -C /repo checkout -- . ; cp /tmp/ev_backup/*.json /verif/evidence/ 2>/dev/null' EXIT PIPE INT TERM
 for p in "$@"; do python3-vt -m rxvc check $p --tier quick 2>&1 | tail -8; echo "exit=$?"; done
 git -C /repo checkout -- .
 cp /tmp/ev_backup/*.json evidence/ 2>/dev/null
